@@ -29,7 +29,7 @@ META = {
             "failure callback <=1 (exactly 1 when a sweep completed), <=1 retry enqueued, chain length <= max_retry, the retry carries "
             "the original params/distributions/user_attrs, failed_trial = the chain's first number, retry_history = the chain in "
             "order, intermediate values inherited iff asked; alive / never-beaten / finished trials are bit-identical before and "
-            "after. Heartbeat ages vary: just over the grace period, whole days plus a remainder below it, a year; fresh beats up to half the grace period old or 1-2 s newer than the sweeper's clock reading. "Revived" trials (silent for longer than the grace period, beat again just before the sweep) are protected like alive ones; a sweep that raises in a sequential round is a violation. Held on the schedules observed.",
+            "after. Heartbeat ages vary: just over the grace period, whole days plus a remainder below it, a year; fresh beats up to half the grace period old or 1-2 s newer than the sweeper's clock reading. 'Revived' trials (silent for longer than the grace period, beat again just before the sweep) are protected like alive ones; a sweep that raises in a sequential round is a violation. Held on the schedules observed.",
     "note": "Trusted: the harness's back-dating of heartbeat rows (UTC, the clock SQLite's CURRENT_TIMESTAMP uses). Heartbeats need an "
             "RDB; SQLite is the only one available offline. Double FAIL/callback that needs two overlapping storage calls on SQLite is "
             "the known finding F7.",
